@@ -258,6 +258,15 @@ Theorem C18_landscape_scale : forall A c, admissible A ->
 Proof. exact landscape_scale. Qed.
 Print Assumptions C18_landscape_scale.
 
+(* compute_average (rounds of pairwise sums, then *= 1/n) of the landscapes of n >= 1 admissible diagrams, read back by
+   compute_value_at_a_given_point, is the pointwise mean (lambda_k(D_1)(t) + ... + lambda_k(D_n)(t)) / n *)
+Theorem C18_landscape_average : forall Ds, Ds <> [] -> Forall admissible Ds ->
+  exists lands s, Forall2 (fun D la => construct D 0 = Some la) Ds lands /\ land_average lands = Some s /\
+    forall k t, - INF < t -> t < INF ->
+      exists v, value_at s k t = Some v /\ v == sumlambda Ds k t / inject_Z (Z.of_nat (length Ds)).
+Proof. exact landscape_average. Qed.
+Print Assumptions C18_landscape_average.
+
 (* the function whose integral (L1), squared integral (L2) and maximum (sup) is the distance of two landscapes:
    compute_distance_of_landscapes forms abs(first - second); read back by compute_value_at_a_given_point it is
    |lambda_k(A)(t) - lambda_k(B)(t)| for every level and every t between the sentinels *)
